@@ -520,9 +520,49 @@ func (a *Analysis) call(st *State, fr *frame, c *ssa.Call) {
 			return
 		}
 	case "builtin:copy":
-		st.killClass("E:"+"*"+typeKey(cc.Args[0].Type().Underlying().(*types.Slice).Elem()), siteTok(fr, c))
-		if r := rootOf2(args[0]); r != nil {
-			st.escape(r, true)
+		// copy(dst, src) writes dst[lo:...] only
+		droot, dlo, _ := sliceParts(args[0])
+		lo := int64(0)
+		loKnown := dlo == nil
+		if dlo != nil {
+			if cv, isC := dlo.IsConst(); isC {
+				lo, loKnown = cv, true
+			}
+		}
+		r := rootOf2(args[0])
+		freshDst := r != nil && st.fresh[r.Key]
+		for k := range st.mem {
+			me := st.memE[k]
+			if me == nil || (me.Op != "ia" && me.Op != "bea") {
+				continue
+			}
+			sameRoot := me.Args[0].Key == droot.Key
+			if !sameRoot {
+				if freshDst {
+					continue // a fresh destination aliases nothing else
+				}
+				mr := rootOf2(me.Args[0])
+				if mr != nil && st.fresh[mr.Key] {
+					continue
+				}
+				if aliasClass(me) != "E:*"+typeKey(cc.Args[0].Type().Underlying().(*types.Slice).Elem()) && me.Op != "bea" {
+					continue
+				}
+				delete(st.mem, k)
+				delete(st.memE, k)
+				continue
+			}
+			if idx, isC := me.Args[1].IsConst(); isC && loKnown && idx < lo && me.Op == "ia" {
+				continue // below the written range
+			}
+			delete(st.mem, k)
+			delete(st.memE, k)
+		}
+		cls := "E:*" + typeKey(cc.Args[0].Type().Underlying().(*types.Slice).Elem())
+		if freshDst {
+			st.ver["A:"+r.Key] = siteTok(fr, c)
+		} else {
+			st.ver[cls] = siteTok(fr, c)
 		}
 		a.bind(st, fr, c, a.freshLeaf(st, fr, "val", c))
 		return
